@@ -99,6 +99,15 @@ type Outcome struct {
 	PoolLog    []int
 	Ambiguous  int
 	Infra      string // non-empty: infrastructure problem (exit 2), never a violation
+	// Known: manifestations of recorded findings that the run tolerated and
+	// continued past (the model adapted). If the key is not an open entry of
+	// known_findings.json the first of them becomes the run's violation.
+	Known []*Violation
+}
+
+// KnownHit records a tolerated manifestation of a recorded finding.
+func (o *Outcome) KnownHit(key, inv string, step int, format string, a ...any) {
+	o.Known = append(o.Known, &Violation{Inv: inv, Msg: fmt.Sprintf(format, a...), Step: step, Key: key})
 }
 
 func NewOutcome() *Outcome {
